@@ -289,6 +289,10 @@ class MD3(DriftDetector):
 
         self.drift_state = None
 
+        # the check above is on the set of columns: store the sample in the
+        # reference's column order
+        labeled_sample = labeled_sample[reference_columns]
+
         if self.oracle_data is None:
             self.oracle_data = labeled_sample
         else:
